@@ -328,6 +328,7 @@ pub fn run(tier: Tier) -> i32 {
         1 => format!("pattern {:?}", nth_string(&PAT_ALPHA, idx)),
         2 => format!("condition/key {:?}", nth_string(&COND_ALPHA, idx)),
         3 => format!("token condition {:?}", nth_string(&TOKENS, idx)),
+        5 => format!("multi-byte offset string #{}", idx),
         _ => format!("family {} index {}", fam, idx),
     });
     watch.spawn(Duration::from_secs(10), describe);
@@ -468,6 +469,62 @@ pub fn run(tier: Tier) -> i32 {
         }
     });
     rep.stats.count("token_conditions", total);
+
+    // (3b) a multi-byte character at every byte offset up to 16 after the start of a word /
+    //      keyword / number, through every textual layer (strings longer than the exhaustive bound)
+    {
+        let heads = ["", "a", "and ", "not ", "int(", "all(", "of(", "str(", "string(", "1", "A and ", "(", "i", "?", "*", ">=", "flt(a) == ", "a.b[0]"];
+        let pads = ["a", "n", " ", "1", "("];
+        let wide = ["é", "日", "😀", "\u{301}"];
+        let tails = ["", "a", " a", ")", " and A", "*"];
+        let mut texts: Vec<String> = vec![];
+        for h in heads {
+            for p in pads {
+                for k in 0..=16usize {
+                    for w in wide {
+                        for t in tails {
+                            texts.push(format!("{}{}{}{}", h, p.repeat(k), w, t));
+                        }
+                    }
+                }
+            }
+        }
+        let total = texts.len() as u64;
+        let texts = std::sync::Arc::new(texts);
+        let t2 = texts.clone();
+        run_family(&mut rep, &watch, 5, total, move |i, st| {
+            let c = t2[i as usize].clone();
+            st.states += 1;
+            st.evaluations += 1;
+            st.transitions += 5;
+            let mut bad = |layer: &str, r: Result<bool, String>, st: &mut Stats| {
+                if let Err(msg) = r {
+                    st.push_violation(Violation {
+                        signature: sig_of_panic(layer, &msg),
+                        witness: format!("{} on {:?} panics: {}", layer, c, msg),
+                        replay: json!({"kind":"tokenise","text":c}),
+                    });
+                }
+            };
+            let c1 = c.clone();
+            bad("tokenise", catch(move || c1.tokenise().is_ok()), st);
+            let c2 = c.clone();
+            bad("into_identifier", catch(move || c2.into_identifier().is_ok()), st);
+            let mut v = base.clone();
+            set_condition(&mut v, &c);
+            bad("load-condition", load_value(v), st);
+            let mut mm = serde_yaml::Mapping::new();
+            mm.insert(Y::String(c.clone()), Y::String("x".into()));
+            let y = Y::Mapping(mm);
+            bad("parse_identifier-key", catch(|| parse_identifier(&y).is_ok()), st);
+            let mut v = base.clone();
+            let mut mm = serde_yaml::Mapping::new();
+            mm.insert(Y::String("f".into()), Y::Sequence(vec![Y::String(c.clone()), Y::String("a*".into())]));
+            replace_at(&mut v, &["detection".to_string(), "A".to_string()], &Y::Mapping(mm));
+            bad("load-list", load_value(v), st);
+        });
+        rep.stats.count("multibyte_offset_strings", total);
+    }
 
     // (4) YAML shapes at every node position (thorough: every pair of positions)
     let skel: Y = serde_yaml::from_str(
